@@ -1,9 +1,9 @@
 package checks
 
 import (
+	"fmt"
 	"os"
 	"sort"
-	"fmt"
 	"strings"
 	"time"
 
@@ -14,10 +14,11 @@ import (
 )
 
 // lock program step codes:
-//   L<t>/<d>  Lock with timeout t ms (0 = none) and deadline d ms
-//   U         Unlock with the token of this thread's last successful Lock
-//   E<t>      Lease own token for t ms
-//   S<d>      sleep d ms of virtual time
+//
+//	L<t>/<d>  Lock with timeout t ms (0 = none) and deadline d ms
+//	U         Unlock with the token of this thread's last successful Lock
+//	E<t>      Lease own token for t ms
+//	S<d>      sleep d ms of virtual time
 type lockStep struct {
 	op      string
 	timeout time.Duration
